@@ -1,7 +1,8 @@
 """C04 — template inheritance renders the most-derived block overrides.
 
 proof : Properties/C04.v  (stack_order, inherit_correct, no_child_output, required_enforced, fuel lemmas)
-tie   : K-rt  extracted Model.Inh.render == Environment(DictLoader).get_template(child).render on
+tie   : T5    gen/inh_translate.py: source of Context.super / BlockReference.super / __call__ = Model/InhRt
+        K-rt  extracted Model.Inh.render == Environment(DictLoader).get_template(child).render on
         generated hierarchies (exhaustive skeleton grammar + random), and the model's context.blocks
         == the real Context.blocks after the render (function -> defining template);
 oracle: extracted Spec.InhSpec.spec_render (written from templates.rst) vs the real render.
@@ -16,8 +17,10 @@ from . import inh_gen as G
 FUEL = 64
 RULE = ("skeleton: every chain of 1..D templates, each template one of V variants over two block names "
         "(absent / text / text+super() / super.super() / self.other() / required / nested definition / scoped "
-        "block in a loop), parents selected by dynamic extends; random: depth 1-4, 1-5 block names, nesting <= 3, "
-        "super / super.super / self calls, loops with scoped and unscoped blocks, required blocks, constant / "
+        "block in a loop), each preceded by a block set / with / filter / call / include statement or nothing, parents "
+        "selected by dynamic extends; random: depth 1-4, 1-5 block names, nesting <= 3, "
+        "super / super.super / self calls, loops with scoped and unscoped blocks, required blocks, include / call block / "
+        "filter block / with / block set statements at every level (also at the top level of children),  constant / "
         "dynamic (name or template object) / conditional extends, content before extends, second extends, "
         "missing parent. distinct = the driver line (chain structure + data); non-trivial = at least two "
         "templates in the chain and at least one block defined in two of them.")
@@ -36,11 +39,20 @@ def variants(full):
     return vs
 
 
-def skeleton_template(name, lvl, v, child):
+STRAY_KINDS = [None, "set", "with", "filter", "call", "inc", "filterb", "incw"]
+
+
+def skeleton_template(name, lvl, v, child, vi=0):
     L = "pqrs"[lvl]
     t = {"name": name, "tops": [], "blocks": {}}
     if child:
         t["tops"].append(("x", None, None, "dynname"))
+    # a statement other than text / block in front of the template's own top-level text: in a child it and
+    # everything after it must stay unrendered (a block set / with / filter / call / include must not
+    # switch the suppression off for what follows), in a root it renders where it stands
+    kind = STRAY_KINDS[(vi + lvl) % len(STRAY_KINDS)]
+    if kind:
+        t["tops"].append(("i", ("e", kind, "z" + L)))
     t["tops"].append(("i", ("s", L + "[")))
     if v[0] == "ab":
         a, b = v[1], v[2]
@@ -77,6 +89,10 @@ def signature(h, spec, real):
         if any(rq and idx < len(h["chain"]) - 1 for idx, rq in rp.values()):
             return "C04:required-block-below-root-rendered"
         return "C04:required-block-rendered"
+    for kind, sig in (("inc", "include"), ("incw", "include"), ("call", "call-block"), ("filter", "filter-block"),
+                      ("filterb", "filter-block")):
+        if "child-post-stmt-" + kind in f and real != spec:
+            return "C04:child-toplevel-" + sig + "-rendered"
     if spec.startswith("O ") and real.startswith("O ") and "child-post-loop-block" in f:
         return "C04:block-in-loop-of-child-rendered-in-place"
     return None
@@ -138,7 +154,8 @@ def run_batch(ctx, jinja2, hs, env=None, blocks_every=3):
     lines = [G.model_line(h, FUEL) for h in hs]
     out = ctx.driver("inh", lines)
     for idx, (h, line, ml) in enumerate(zip(hs, lines, out)):
-        srcs = G.sources(h) if env is None else {n: env.loader.mapping[n] for n in h["chain"]}
+        srcs = G.sources(h) if env is None else dict({n: env.loader.mapping[n] for n in h["chain"]},
+                                                     **G.aux_templates(h))
         full = len(h["chain"]) == len([1 for n in h["chain"]])  # chain handed to the model is the effective one
         real, rb = G.real_render(jinja2, h, want_blocks=(idx % blocks_every == 0), srcs=srcs if env is None else None,
                                  env=env)
@@ -148,6 +165,23 @@ def run_batch(ctx, jinja2, hs, env=None, blocks_every=3):
             if not m.startswith("O "):
                 rb = None
         judge(ctx, h, ml, real, rb, srcs, line)
+
+
+def translator_tie(ctx, module, name, n):
+    """regenerate the source = model equations from the current source and compile them"""
+    import importlib
+    import os
+    import sys
+    sys.path.insert(0, os.path.join(lib.ROOT, "gen"))
+    tr = importlib.import_module(module)
+    try:
+        vtext = tr.emit(lib.SRC)
+    except tr.Untranslatable as e:
+        ctx.broken.append(f"translator gen/{module}.py: the source left the translatable vocabulary: {e}")
+        return
+    ok, out = ctx.coq_obligation(name, vtext, n_obligations=n)
+    if ok:
+        ctx.trusted.append(f"{name} (source = model equations): " + " ".join(out.split()))
 
 
 def run(ctx):
@@ -163,6 +197,9 @@ def run(ctx):
         "autoescape off; block bodies restricted to text, variables, block sites, super chains, self calls, for loops",
     ]
     ctx.proof("C04")
+    # translator tie: the current source of Context.super, BlockReference.super and BlockReference.__call__, as terms
+    # of Lib/PyInh, equals Model/InhRt's functions (which C04_super_is_runtime shows are what exec_item computes)
+    translator_tie(ctx, "inh_translate", "Gen_inh", 3)
 
     # ---------------- exhaustive skeleton
     D = ctx.size(3, 4)
@@ -174,9 +211,10 @@ def run(ctx):
         for vi, v in enumerate(vs):
             for child in (True, False):
                 name = f"{'c' if child else 'r'}{lvl}v{vi}"
-                t = skeleton_template(name, lvl, v, child)
+                t = skeleton_template(name, lvl, v, child, vi)
                 tmpl[(lvl, vi, child)] = t
                 srcs[name] = G.source(t, lvl)
+                srcs.update(G.aux_templates({"templates": [t]}))
     env = jinja2.Environment(loader=jinja2.DictLoader(srcs), cache_size=-1)
     hs = []
 
